@@ -65,6 +65,7 @@ type Contract struct {
 	Pos      string
 	Opts     map[string]string
 	Seq      int
+	Extern   bool
 }
 
 type PureDecl struct {
@@ -137,7 +138,7 @@ var clauseRe = regexp.MustCompile(`^(requires|ensures|invariant|assert)(\[[^\]]*
 
 var keywords = map[string]bool{"contract": true, "iface": true, "pure": true, "axiom": true, "lemma": true, "monitor": true, "ghost": true,
 	"serves": true, "mode": true, "requires": true, "ensures": true, "modifies": true, "modifies-all": true, "loop": true, "let": true,
-	"trusted": true, "abstract": true, "acquires": true, "nonnil": true, "immutable": true, "may-panic": true, "uninterp": true, "callers-only": true, "opt": true, "noop": true, "pure-method": true, "refines": true, "ghost-set": true}
+	"trusted": true, "abstract": true, "acquires": true, "nonnil": true, "immutable": true, "may-panic": true, "uninterp": true, "callers-only": true, "opt": true, "noop": true, "pure-method": true, "refines": true, "ghost-set": true, "extern": true, "extern-iface": true}
 
 func firstWord(s string) string {
 	s = strings.TrimSpace(s)
@@ -198,6 +199,14 @@ func (cs *Contracts) parseFile(p *Program, pkgPath, fname string, f *ast.File) e
 		rest := strings.TrimSpace(l.text[len(w):])
 		fail := func(err error) error { return fmt.Errorf("%s: %v", l.pos, err) }
 		switch w {
+		case "extern", "extern-iface":
+			// a trusted contract of a function (or interface method) of another module, keyed by its full name
+			cur = &Contract{PkgPath: pkgPath, Loops: map[int]*LoopSpec{}, Pos: l.pos, Iface: w == "extern-iface", Opts: map[string]string{}, Key: strings.TrimSpace(rest), Trusted: "assumed contract of a dependency", Extern: true}
+			if _, dup := cs.ByKey[cur.Key]; dup {
+				return fail(fmt.Errorf("duplicate extern contract %s", cur.Key))
+			}
+			cur.Seq = len(cs.ByKey) + 1
+			cs.ByKey[cur.Key] = cur
 		case "contract", "iface", "lemma":
 			cur = &Contract{PkgPath: pkgPath, Loops: map[int]*LoopSpec{}, Pos: l.pos, Iface: w == "iface", Lemma: w == "lemma", Opts: map[string]string{}}
 			if w == "lemma" {
